@@ -60,16 +60,22 @@ def gen(rng):
             xdev[0] += 1
         # (names that end - or, in a relative Path, begin - with blanks: the location is exactly what was recorded, blanks included)
         nm = rng.choice(['', '', '', ' ', '\t']) + 'ent%d' % i + rng.choice(['', '', '', ' ', '\t', '  ', ' \n'])
+        tn = nm
+        if rng.random() < 0.08:
+            # a base name of 236-255 bytes at the original location (in the trash it lives under a shorter name, as trash-put
+            # shortens names whose '<name>.trashinfo' would not fit): whatever is derived from the destination name must still fit
+            tn = 'ent%d' % i
+            nm = ('ent%d-' % i + rng.choice(['L', 'é', '日']) * 255).encode('utf-8')[:rng.randint(236, 255)].decode('utf-8', 'ignore')
         if top is not None and nm.startswith((' ', '\t')) and rng.random() < 0.5:
             base = top            # directly below the top directory: the relative Path begins with the blank
         loc = base + '/' + nm
         pv = TG.pct(loc if top is None else loc[len(top) + 1:])
         # (7 %: only the .trashinfo is there - a restore that was stopped after its move, a half-done purge; such an entry is
         # listed like any other, and an occupied destination is a reason to refuse it like any other)
-        G.add_trashed(steps, tdir, nm, pv, TG.iso(TG.rand_date(rng)), rng.choice(['file', 'dir', 'link']) if not nopayload else 'none', tag=str(i))
+        G.add_trashed(steps, tdir, tn, pv, TG.iso(TG.rand_date(rng)), rng.choice(['file', 'dir', 'link']) if not nopayload else 'none', tag=str(i))
         if rng.random() < 0.2 and not nopayload:
             # an older generation trashed from the same location
-            G.add_trashed(steps, tdir, nm + '_1', pv, TG.iso(TG.rand_date(rng)), rng.choice(['file', 'dir', 'link']), tag='gen2-%d' % i)
+            G.add_trashed(steps, tdir, tn + '_1', pv, TG.iso(TG.rand_date(rng)), rng.choice(['file', 'dir', 'link']), tag='gen2-%d' % i)
             ngen2 += 1
         dk = rng.choice(DEST)
         if nopayload:
